@@ -603,9 +603,8 @@ func (f *frame) opCreate(is2 bool) {
 	}
 	e.accessAddr(addr)
 	w.accts.GetOrNew(self).Nonce++
-	if acc := w.accts[addr]; acc != nil && (acc.Nonce != 0 || len(acc.Code) != 0 || len(acc.Storage) != 0) {
+	if e.collides(addr) {
 		// collision (EIP-684, EIP-7610): the forwarded gas is consumed
-		e.cov(HaltCollision)
 		f.push(new(big.Int))
 		return
 	}
